@@ -59,27 +59,42 @@ Definition same_obs (ev : env) (m : res) (i : obs) : bool :=
   list_eqb N.eqb (dedup_sorted (sort_n (refs ev (st_of m)))) (i_refs i).
 
 (* the property oracle on the implementation's observables only:
-   s = its state before the step, rb = its referenced set before *)
+   s = its state before the step, rb = its referenced set before.  The history is judged up to the
+   first operation that breaks a client assumption (op_ok, evaluated on the IMPLEMENTATION's state) *)
 Fixpoint oracle (ev : env) (s : st) (rb : list N) (os : list op) (im : list obs) : bool :=
   match os, im with
   | [], [] => true
   | o :: os', i :: im' =>
-      step_prop ev s o rb (i_refs i) (i_sched i) && oracle ev (i_state i) (i_refs i) os' im'
+      if op_ok ev s o
+      then step_prop ev s o rb (i_refs i) (i_sched i) && oracle ev (i_state i) (i_refs i) os' im'
+      else Nat.eqb (List.length os') (List.length im')
   | _, _ => false
+  end.
+
+(* the judged prefix of a history: up to the first operation that breaks a client assumption (model run) *)
+Fixpoint judged (ev : env) (s : st) (os : list op) : list op :=
+  match os with
+  | [] => []
+  | o :: os' => if op_ok ev s o then o :: judged ev (st_of (step ev s o)) os' else []
   end.
 
 Definition assumed (c : case) : bool := flat_env (c_env c) && hist_ok (c_env c) empty_st (ops c).
 
 Definition check (c : case) : outcome :=
   {| o_corr := all2 (same_obs (c_env c)) (run (c_env c) empty_st (ops c)) (impl c);
-     (* the property is stated under the client assumptions (hist_ok, flat_env); a case outside
-        them (the malformed stream) is judged on correspondence only *)
-     o_prop := if assumed c then oracle (c_env c) empty_st [] (ops c) (impl c) else true;
-     o_trig := match first_failure (c_env c) false empty_st (ops c) with
-               | Some t => t
-               | None => None
-               end;
-     o_nontrivial := assumed c && existsb (fun i => negb (is_err (i_err i))) (impl c) &&
+     (* the property is stated under the client assumptions (op_ok per operation, flat_env): the steps
+        after the first operation outside them (the malformed stream) are judged on correspondence only *)
+     o_prop := if flat_env (c_env c) then oracle (c_env c) empty_st [] (ops c) (impl c) else true;
+     (* Some k only if EVERY offending chunk of EVERY failing judged step is explained by a known finding *)
+     o_trig := if flat_env (c_env c)
+               then match first_failure (c_env c) (judged (c_env c) empty_st (ops c)) with
+                    | Some t => t
+                    | None => None
+                    end
+               else None;
+     o_nontrivial := flat_env (c_env c) &&
+                     match judged (c_env c) empty_st (ops c) with [] => false | _ => true end &&
+                     existsb (fun i => negb (is_err (i_err i))) (impl c) &&
                      existsb (fun i => negb (match i_sched i with [] => true | _ => false end)) (impl c) |}.
 
 Definition summarize_cases (l : list case) : summary := summarize check l.
